@@ -1051,6 +1051,7 @@ func (c *Ctx) entrySetterRule(rn string, setThisValue *ssa.Function) {
 		r := c.foldWith(setThisValue, 0, pinNilCompareOfField("this", isNil))
 		made := false
 		var upd *ssa.MapUpdate
+		var fresh ssa.Value
 		for _, b := range setThisValue.Blocks {
 			if !r.Reach[b] {
 				continue
@@ -1058,8 +1059,9 @@ func (c *Ctx) entrySetterRule(rn string, setThisValue *ssa.Function) {
 			for _, in := range b.Instrs {
 				if st, ok := in.(*ssa.Store); ok {
 					if fa, ok := st.Addr.(*ssa.FieldAddr); ok && fieldName(fa) == "this" {
-						if _, ok := st.Val.(*ssa.MakeMap); ok {
+						if mk, ok := st.Val.(*ssa.MakeMap); ok {
 							made = true
+							fresh = mk
 						}
 					}
 				}
@@ -1068,7 +1070,8 @@ func (c *Ctx) entrySetterRule(rn string, setThisValue *ssa.Function) {
 				}
 			}
 		}
-		updOK := upd != nil && upd.Key == ssa.Value(setThisValue.Params[1]) && upd.Value == ssa.Value(setThisValue.Params[2]) && c.isThisMap(upd.Map)
+		// into the runner's map, or into the fresh map that becomes it (`r.this = map[..]..{key: value}`)
+		updOK := upd != nil && upd.Key == ssa.Value(setThisValue.Params[1]) && upd.Value == ssa.Value(setThisValue.Params[2]) && (c.isThisMap(upd.Map) || fresh != nil && upd.Map == fresh)
 		if updOK && len(setThisValue.Blocks) > 0 {
 			// ... on every path: no value (null included) is silently not stored, or an earlier entry would survive
 			isUpd := func(in ssa.Instruction) bool { _, ok := in.(*ssa.MapUpdate); return ok }
